@@ -38,13 +38,12 @@ type env struct {
 	scheds    [][][]string   // the same for every task manager of the case, in order of first appearance (nested runs, resumed runs)
 	collected map[string]int // node key -> tasks collected by any run loop of the case (resumed runs included)
 	resumes   int
-	seg1      int        // number of accounting events logged when the first interrupt was returned (-1: none)
-	seg1Trace int        // number of task-manager trace events at that moment
-	sched1    [][]string // schedule of the first segment of an interrupted run
+	segs      [][][]string // the schedule of every call of the top-level runnable (the first run and every resumed run), in order
+	subScheds [][][]string // the schedules of the nested graph runs, in order of their start
 	pipes     []func()   // drains every Pipe the harness created (used after an aborted run)
 }
 
-func newEnv(c *Case) *env { return &env{c: c, brLog: map[[2]int][][]int{}, seg1: -1} }
+func newEnv(c *Case) *env { return &env{c: c, brLog: map[[2]int][][]int{}} }
 
 func (e *env) exec(idx int) {
 	e.mu.Lock()
@@ -656,13 +655,16 @@ func runCase(e *env) runOut {
 	select {
 	case out := <-done:
 		evs := compose.VerifC03Events()
-		e.scheds = schedulesOf(evs, c19Eager(e.c))
+		var top []bool
+		e.scheds, top = schedulesOf(evs, c19Eager(e.c))
 		if len(e.scheds) > 0 {
 			e.sched = e.scheds[0]
 		}
-		if e.seg1 >= 0 && e.seg1Trace <= len(evs) {
-			if s1 := schedulesOf(evs[:e.seg1Trace], c19Eager(e.c)); len(s1) > 0 {
-				e.sched1 = s1[0]
+		for tm := range e.scheds {
+			if top[tm] {
+				e.segs = append(e.segs, e.scheds[tm])
+			} else {
+				e.subScheds = append(e.subScheds, e.scheds[tm])
 			}
 		}
 		e.collected = map[string]int{}
@@ -679,39 +681,60 @@ func runCase(e *env) runOut {
 
 func c19Eager(c *Case) bool { return c.Mode == "workflow" }
 
-// schedulesOf rebuilds, for every task manager of the case (the top-level run is number 0, every
-// nested graph run and every resumed run has its own), the batches of completed tasks from the
-// taskManager protocol trace: a "recv" event is one task taken from the done channel by waitOne,
-// "empty" ends a waitAll. In eager mode (top level of a Workflow only) wait() returns after one task.
-func schedulesOf(evs []compose.VerifC03Event, eagerTop bool) [][][]string {
-	var out [][][]string
+// schedulesOf rebuilds, for every task manager of the case (every call of the top-level runnable — the
+// first run and every resumed run — and every nested graph run has its own), the batches of completed
+// tasks from the taskManager protocol trace: a "recv" event is one task taken from the done channel by
+// waitOne, "empty" ends a waitAll. A task manager belongs to a call of the top-level runnable when the
+// first task it names is a top-level node. In eager mode (top level of a Workflow only) wait() returns
+// after one task: every task is a batch of its own, including the tasks the waitAll of an interrupt
+// exit collects (the model puts those together again).
+func schedulesOf(evs []compose.VerifC03Event, eagerTop bool) (all [][][]string, top []bool) {
 	var cur [][]string
+	var known []bool
 	for _, ev := range evs {
-		for ev.TM >= len(out) {
-			out = append(out, nil)
+		for ev.TM >= len(all) {
+			all = append(all, nil)
 			cur = append(cur, nil)
+			top = append(top, false)
+			known = append(known, false)
 		}
-		eager := eagerTop && ev.TM == 0
+		if !known[ev.TM] && ev.Key != "" {
+			id, ok := nodeIndex(ev.Key)
+			top[ev.TM], known[ev.TM] = ok && id < subBase, true
+		}
+		eager := eagerTop && top[ev.TM]
 		switch ev.Kind {
 		case "recv":
 			if eager {
-				out[ev.TM] = append(out[ev.TM], []string{ev.Key})
+				all[ev.TM] = append(all[ev.TM], []string{ev.Key})
 			} else {
 				cur[ev.TM] = append(cur[ev.TM], ev.Key)
 			}
 		case "empty":
 			if len(cur[ev.TM]) > 0 {
-				out[ev.TM] = append(out[ev.TM], cur[ev.TM])
+				all[ev.TM] = append(all[ev.TM], cur[ev.TM])
 				cur[ev.TM] = nil
 			}
 		}
 	}
-	for tm := range out {
+	for tm := range all {
 		if len(cur[tm]) > 0 {
-			out[tm] = append(out[tm], cur[tm])
+			all[tm] = append(all[tm], cur[tm])
 		}
 	}
-	return out
+	return all, top
+}
+
+// resumeInput is the input stream handed to the k-th resumed call: like the input of the first call a
+// Pipe fed by a producer goroutine. The resumed run continues from its checkpoint and does not read it;
+// it has to close it, otherwise the producer stays blocked (F-C19c).
+func resumeInput(e *env, k int) *schema.StreamReader[M] {
+	c := e.c
+	in, sw := schema.Pipe[M](c.InCap)
+	e.addPipe(drain(in))
+	p := e.newProducer(fmt.Sprintf("input-r%d", k))
+	go produce(p, c.InItems, 0, func(i int) bool { return sw.Send(chunkOf[M]("in", i), nil) }, sw.Close)
+	return in
 }
 
 func callAndRead(e *env, r compose.Runnable[M, M]) runOut {
@@ -743,13 +766,10 @@ func callAndRead(e *env, r compose.Runnable[M, M]) runOut {
 				break
 			}
 			e.mu.Lock()
-			if e.resumes == 0 {
-				e.seg1 = len(schema.VerifC19Snapshot())
-				e.seg1Trace = len(compose.VerifC03Events())
-			}
 			e.resumes++
+			k := e.resumes
 			e.mu.Unlock()
-			_, err = r.Collect(ctx, schema.StreamReaderFromArray([]M{{}}), opts...)
+			_, err = r.Collect(ctx, resumeInput(e, k), opts...)
 		}
 		if err != nil {
 			return runOut{class: "run_err", msg: err.Error()}
@@ -771,13 +791,14 @@ func callAndRead(e *env, r compose.Runnable[M, M]) runOut {
 			break
 		}
 		e.mu.Lock()
-		if e.resumes == 0 {
-			e.seg1 = len(schema.VerifC19Snapshot())
-			e.seg1Trace = len(compose.VerifC03Events())
-		}
 		e.resumes++
+		k := e.resumes
 		e.mu.Unlock()
-		sr, err = r.Stream(ctx, M{}, opts...)
+		if c.Input == "stream" {
+			sr, err = r.Transform(ctx, resumeInput(e, k), opts...)
+		} else {
+			sr, err = r.Stream(ctx, M{}, opts...)
+		}
 	}
 	if err != nil {
 		return runOut{class: "run_err", msg: err.Error()}
